@@ -565,6 +565,19 @@ func (g *gen) specials() {
 	g.ins = append(g.ins, &Input{Kind: "malformed", Schema: sn, Lookups: lookupsFor(sn, fields, false)})
 	sm := g.env.NewSchema(nil)
 	g.ins = append(g.ins, &Input{Kind: "malformed", Schema: sm, Lookups: lookupsFor(sm, fields, true)})
+	// the same context written as an object instead of a one-element array, and with more top-level members
+	{
+		so := g.env.NewSchema(strp(credgen.SerAttr("count", "", "", "info.since")))
+		var top map[string]any
+		_ = json.Unmarshal(so.BuildDoc(), &top)
+		inner := top["@context"].([]any)[0]
+		b1, _ := json.Marshal(map[string]any{"@context": inner})
+		b2, _ := json.Marshal(map[string]any{"@context": []any{inner, map[string]any{"other": "urn:other"}}, "$schema": "x", "title": 5})
+		for _, raw := range []string{string(b1), string(b2)} {
+			raw := raw
+			g.ins = append(g.ins, &Input{Kind: "assign", Asg: [4]string{"count", "", "", "info.since"}, Schema: so, RawDoc: &raw, Lookups: lookupsFor(so, fields, true)})
+		}
+	}
 	// documents that are not a JSON object with a usable @context
 	for _, raw := range []string{"", "not json", "[]", "5", "null", "{}", `{"context":{}}`, `{"@context":5}`, `{"@context":{"a":{"@id":5}}}`, `{"@context":{"@version":2}}`, `{"@context":{}}`, `{"@context":[]}`, `{"@context":null}`} {
 		raw := raw
@@ -662,6 +675,17 @@ func (g *gen) facade() {
 				fail("ValidateData: the facade does not return what its validator returns", nil)
 			}
 		}
+	}
+	// options are applied in order: the last parser wins; an option does not disturb the other components
+	{
+		n1, n2, n3 := 0, 0, 0
+		p := processor.InitProcessorOptions(&processor.Processor{}, processor.WithParser(stubParser{idx: 1, calls: &n1}),
+			processor.WithValidator(stubValidator{calls: &n3}), processor.WithParser(stubParser{idx: 2, calls: &n2}))
+		i, err := p.GetFieldSlotIndex("f", "t", nil)
+		if i != 2 || err != nil || n1 != 0 || n2 != 1 || p.Validator == nil || p.DocumentLoader != nil {
+			fail("InitProcessorOptions: the configured components are not the ones given (last option wins)", nil)
+		}
+		rep.Evaluations++
 	}
 	// missing components
 	empty := processor.InitProcessorOptions(&processor.Processor{})
